@@ -97,27 +97,38 @@ OPEN_OK = ("pp_id == 50 and len(data) >= 12 and data[0] == 3 and not (stream_id 
            "valid_utf8(data[12:12 + u16(data, 8)]) and valid_utf8(data[12 + u16(data, 8):12 + u16(data, 8) + u16(data, 10)])")
 CH = "self._data_channels[stream_id]"
 contract(f"{M}:RTCSctpTransport._data_channel_receive", params={"stream_id": "int", "pp_id": "int", "data": "bytes"},
-         # what is decided here is the DATA_CHANNEL_OPEN branch for a well-formed message on a fresh stream
-         requires=[OPEN_OK, "0 <= stream_id < 65536", TABLE_NN, TABLE_ID, QUEUE_OK,
-                   f"implies({EST_}, self._data_channel_id is not None and 0 <= self._data_channel_id <= 1)"],
+         # decided per DCEP message type: MSG=3 a well-formed DATA_CHANNEL_OPEN on a fresh stream, MSG=2 a DATA_CHANNEL_ACK
+         # for a registered channel
+         instances=[{"MSG": 3}, {"MSG": 2}],
+         requires=["@MSG=3: " + OPEN_OK, "0 <= stream_id < 65536", TABLE_NN, TABLE_ID, QUEUE_OK,
+                   f"implies({EST_}, self._data_channel_id is not None and 0 <= self._data_channel_id <= 1)",
+                   "@MSG=2: pp_id == 50 and len(data) >= 1 and data[0] == 2 and stream_id in self._data_channels"],
          raises={},
          ensures=[
-             f"stream_id in self._data_channels and fresh({CH})",
+             f"@MSG=3: stream_id in self._data_channels and fresh({CH})",
              # same id, label, protocol, ordering and reliability settings as the sender put on the wire
-             f"{CH}.__id == stream_id and {CH}.__parameters.id == stream_id and not {CH}.__parameters.negotiated",
-             f"utf8({CH}.__parameters.label) == data[12:12 + u16(data, 8)]",
-             f"utf8({CH}.__parameters.protocol) == data[12 + u16(data, 8):12 + u16(data, 8) + u16(data, 10)]",
-             f"{CH}.__parameters.ordered == (data[1] < 128)",
-             f"implies(data[1] % 4 == 1, {CH}.__parameters.maxRetransmits == u32(data, 4) and {CH}.__parameters.maxPacketLifeTime is None)",
-             f"implies(data[1] % 4 == 2, {CH}.__parameters.maxPacketLifeTime == u32(data, 4) and {CH}.__parameters.maxRetransmits is None)",
-             f"implies(data[1] % 4 != 1 and data[1] % 4 != 2, {CH}.__parameters.maxRetransmits is None and "
+             f"@MSG=3: {CH}.__id == stream_id and {CH}.__parameters.id == stream_id and not {CH}.__parameters.negotiated",
+             f"@MSG=3: utf8({CH}.__parameters.label) == data[12:12 + u16(data, 8)]",
+             f"@MSG=3: utf8({CH}.__parameters.protocol) == data[12 + u16(data, 8):12 + u16(data, 8) + u16(data, 10)]",
+             f"@MSG=3: {CH}.__parameters.ordered == (data[1] < 128)",
+             f"@MSG=3: implies(data[1] % 4 == 1, {CH}.__parameters.maxRetransmits == u32(data, 4) and {CH}.__parameters.maxPacketLifeTime is None)",
+             f"@MSG=3: implies(data[1] % 4 == 2, {CH}.__parameters.maxPacketLifeTime == u32(data, 4) and {CH}.__parameters.maxRetransmits is None)",
+             f"@MSG=3: implies(data[1] % 4 != 1 and data[1] % 4 != 2, {CH}.__parameters.maxRetransmits is None and "
              f"{CH}.__parameters.maxPacketLifeTime is None)",
              # the channel is open and the first event emitted on it is 'open'
-             f"{CH}.__readyState == 'open' and len({CH}.emitted) >= 1 and {CH}.emitted[0] == 'open'",
+             f"@MSG=3: {CH}.__readyState == 'open' and len({CH}.emitted) >= 1 and {CH}.emitted[0] == 'open'",
+             # DATA_CHANNEL_ACK: a channel that is still connecting opens; any other state is left alone - readyState never
+             # moves backwards (an ACK that arrives after close() must not reopen the channel) - and no channel is added
+             f"@MSG=2: implies(old({CH}.__readyState) == 'connecting', {CH}.__readyState == 'open')",
+             f"@MSG=2: implies(old({CH}.__readyState) != 'connecting', {CH}.__readyState == old({CH}.__readyState) and "
+             f"len({CH}.emitted) == old(len({CH}.emitted)))",
+             "@MSG=2: all_in(self._data_channels, lambda k: k in old(self._data_channels) and "
+             "same(self._data_channels[k], old(self._data_channels[k])))",
          ],
          modifies=["content(self._data_channels)", "content(self._data_channel_queue)", "content(self._outbound_queue)",
-                   "*RTCDataChannel._RTCDataChannel__id", "*RTCDataChannel._RTCDataChannel__bufferedAmount", "*list<Seq_Str>"],
-         witness=[{"stream_id": 1, "pp_id": 50, "data": bytes.fromhex("03 81 0000 00000005 0002 0001") + "\u00e9".encode() + b"p"},
-                  {"stream_id": 65535, "pp_id": 50, "data": bytes.fromhex("03 02 0100 ffffffff 0000 0000")},
-                  {"stream_id": 0, "pp_id": 50, "data": bytes.fromhex("03 83 0000 00000007 0003 0000") + "\u65e5".encode() + b"xx"}],
+                   "*RTCDataChannel._RTCDataChannel__id", "*RTCDataChannel._RTCDataChannel__bufferedAmount",
+                   "*RTCDataChannel._RTCDataChannel__readyState", "*list<Seq_Str>"],
+         witness=[{"$instance": {"MSG": 3}, "stream_id": 1, "pp_id": 50, "data": bytes.fromhex("03 81 0000 00000005 0002 0001") + "\u00e9".encode() + b"p"},
+                  {"$instance": {"MSG": 3}, "stream_id": 65535, "pp_id": 50, "data": bytes.fromhex("03 02 0100 ffffffff 0000 0000")},
+                  {"$instance": {"MSG": 3}, "stream_id": 0, "pp_id": 50, "data": bytes.fromhex("03 83 0000 00000007 0003 0000") + "\u65e5".encode() + b"xx"}],
          tags=["C13"])
